@@ -53,9 +53,12 @@ def short_extra(rng, rec):
     if r < 0.12:
         # short form of ANY pattern of the database
         return f"{gen.name(rng)}, {gen.member(rng, short=True)}{tail}"
-    if r < 0.25:
+    if r < 0.2:
         # ... and of the patterns whose page may contain punctuation ('BCA at 12,345 and')
         return f"{gen.name(rng)}, {gen.punct_page_member(rng, short=True)}{tail}"
+    if r < 0.25:
+        # ... and of the patterns that continue after the page ('15 at 55 (La.App. 4 Cir. 8/2/17), 5')
+        return f"{gen.name(rng)}, {gen.midpage_member(rng, short=True)}{tail}"
     if r < 0.5:
         return f"{gen.name(rng)}, {gen.num(rng)} {gen.rep(rng)} at {page}{tail}"
     if r < 0.7:
